@@ -1,0 +1,11 @@
+//go:build verif
+// +build verif
+
+package store
+
+// VerifSetMaxCandidateCount changes the size of the published candidate list and returns the old value.
+func VerifSetMaxCandidateCount(n int) int {
+	old := max_candidate_count
+	max_candidate_count = n
+	return old
+}
